@@ -78,7 +78,7 @@ class Lin:
         return tuple(o[:2]), const, {k: v for k, v in var.items() if v}
 
 
-def const_extent(f, pname, kind):
+def const_extent(f, pname, kind, fns=None, depth=0):
     """(lo, hi) constant byte hull of the loads ('load') / stores ('store') a -O2 function makes through parameter
     pname, or None when there are none or one of them is not constant"""
     loops = {b["name"]: b.get("btc") for b in f["blocks"] if b.get("loophdr")}
@@ -117,6 +117,28 @@ def const_extent(f, pname, kind):
                         return None
                     lo = off if lo is None else min(lo, off)
                     hi = off + n[1] if hi is None else max(hi, off + n[1])
+                continue
+            if name.startswith("llvm."):
+                continue
+            # a helper of the same unit (store32_le(out + 4, x) ...): its own constant extent, shifted
+            for k2, o in enumerate(ins.get("ops", [])):
+                off = poff(o) if o[0] in ("v", "a") else None
+                if off is None:
+                    continue
+                g = (fns or {}).get(name)
+                if g is None or depth >= 3 or k2 >= len(g["params"]):
+                    if kind == "store" or g is None:
+                        return None      # handed to code we cannot see: extent unknown
+                    continue
+                sub = const_extent(g, g["params"][k2]["name"], kind, fns, depth + 1)
+                if sub is None:
+                    # the helper does not touch it in this way (None is also "not constant": check the other kind to tell)
+                    other = const_extent(g, g["params"][k2]["name"], "load" if kind == "store" else "store", fns, depth + 1)
+                    if other is None:
+                        return None
+                    continue
+                lo = off + sub[0] if lo is None else min(lo, off + sub[0])
+                hi = off + sub[1] if hi is None else max(hi, off + sub[1])
             continue
         if ins["op"] != kind or "scev" not in ins:
             continue
@@ -162,7 +184,7 @@ class Hazards:
         f = u.fns[g.name]
         if k >= len(f["params"]):
             return None
-        return const_extent(f, f["params"][k]["name"], kind)
+        return const_extent(f, f["params"][k]["name"], kind, u.fns)
 
     def accesses(self, fn, dst, src):
         """[(inst id, 'W'|'R', base frozenset, lo, hi|None, text)]"""
